@@ -7,6 +7,7 @@
 package verifrt
 
 import (
+	"unsafe"
 	"fmt"
 	"math/rand"
 	"runtime"
@@ -60,6 +61,7 @@ type Config struct {
 	PCTLen   int // estimated length for change points
 	TickBias int // 1 in TickBias choices prefers a tick when available (0 = uniform)
 	TickHold bool // no tick fires before the harness calls AllowTicks()
+	Mem      bool // log plain memory accesses (M lines) and harness synchronisation (H lines)
 	NoTrace  bool
 	FailFast bool
 }
@@ -77,6 +79,7 @@ type Result struct {
 }
 
 type Sched struct {
+	memKeep []unsafe.Pointer
 	ticksOn bool
 	cfg     Config
 	gs      []*G
